@@ -54,6 +54,15 @@ func c03Tree(n *ttlvref.Node) (sig string, err error) {
 	if err := safely(func() error { got = ttlv.MarshalTTLV(shared); return nil }); err != nil {
 		return "encode-panic", err
 	}
+	// encoding the very same value again gives the very same bytes: the encoder leaves the caller's value (big integers
+	// are handed over by pointer) as it found it
+	var again []byte
+	if err := safely(func() error { again = ttlv.MarshalTTLV(shared); return nil }); err != nil {
+		return "encode-panic", err
+	}
+	if !bytes.Equal(again, got) {
+		return "encoder-modifies-callers-value", fmt.Errorf("encoding the same value a second time gives %x, the first time %x", again, got)
+	}
 	if !bytes.Equal(arena, arenaBefore) {
 		return "encoder-writes-to-callers-memory", fmt.Errorf("encoding modified the buffer holding the caller's byte strings (beyond the length of a slice): before %x after %x", arenaBefore, arena)
 	}
